@@ -712,7 +712,8 @@ class World:
                     tuple(list(names) + list(names)[:(mask >> 11) % 3])
                     if kind_ == 2 else {x: None for x in names}.keys())
             r = self.call('quantify', keep, ('u', u),
-                          ('qvars', qarg), ('forall', fa))
+                          ('qvars', qarg),
+                          ('forall', int(fa) if (mask >> 12) & 1 else fa))
         elif form == 1:
             kind_ = (mask >> 13) % 4
             rep_ = list(names) + list(names)[:(mask >> 11) % 3]
@@ -789,6 +790,17 @@ class World:
               '<=>': tt.c_equiv, '<->': tt.c_equiv,
               '#': tt.c_xor, '^': tt.c_xor, '-': tt.c_diff}[op]
         nu, nv = self.node(u), self.node(v)
+        if self.kind == 'bdd' and (o >> 5) & 1 and not self.reordering:
+            # `@n` of a node that exists but that nobody references (a
+            # result left as garbage, no collection since)
+            zeros = sorted(z for z, c in self.b._ref.items()
+                           if c == 0 and z != 1)
+            if zeros:
+                nu = zeros[(o >> 6) % len(zeros)]
+                if (o >> 4) & 1:
+                    nu = -nu
+                tu = Den(self.b, self.U)(nu)
+                self.label('add_expr.reference_to_unreferenced_node')
         s = f'@{nu} {op} ~ @{nv}'
         want = cu(tu, ~tv & self.F, self.n)
         self.hold(self.call('add_expr', keep, ('expr' if self.kind == 'bdd' else 'e', s)), want, keep)
@@ -1174,18 +1186,34 @@ class World:
 
     # references ------------------------------------------------------
     def op_incref(self, i):
-        if self.kind != 'bdd' or not self.held:
+        if not self.held:
             return
         e = self.held[i % len(self.held)]
-        self.b.incref(e.ref)
+        if self.kind == 'autoref':
+            if abs(e.ref.node) == 1:
+                return
+            self.A.incref(e.ref)
+        else:
+            self.b.incref(e.ref)
         e.extra += 1
 
     def op_decref(self, i):
-        if self.kind != 'bdd' or not self.held:
+        if not self.held:
             return
         e = self.held[i % len(self.held)]
         if e.extra > 0:
-            self.b.decref(e.ref)
+            if self.kind == 'autoref':
+                # the reference may be given back through any handle of
+                # the same node
+                others = [x.ref for x in self.held
+                          if x is not e and x.ref.node == e.ref.node]
+                via = others[(i >> 8) % len(others)] \
+                    if others and (i >> 7) & 1 else e.ref
+                if via is not e.ref:
+                    self.label('decref.through_another_handle')
+                self.A.decref(via)
+            else:
+                self.b.decref(e.ref)
             e.extra -= 1
 
     def op_decref_zero(self, i):
@@ -1224,6 +1252,9 @@ class World:
             for _ in range(1 + e.extra):
                 self.b.decref(e.ref)
         else:
+            for _ in range(e.extra):
+                self.A.decref(e.ref)    # manual references first
+            e.extra = 0
             a = abs(e.ref.node)
             led = self.ledger().get(a, 0)
             deg = inv.indegree(self.b).get(a, 0)
@@ -1602,7 +1633,15 @@ class World:
         before = self._held_snapshot()
         led = self.ledger()
         size0 = len(reachable(self.b, [u for u, c in led.items() if c > 0]))
-        self._reorder_call(None)
+        with_roots = len(self.log) % 3 == 0 and bool(self.held)
+        if with_roots:
+            self.label('sift.with_roots')
+            self.b.roots = {self.node(e.ref) for e in self.held}
+        try:
+            self._reorder_call(None)
+        finally:
+            if with_roots:
+                self.b.roots = set()
         actual = [self.b._level_to_var.get(l)
                   for l in range(len(self.b.vars))]
         require(sorted(actual) == sorted(self.order),
@@ -2194,6 +2233,9 @@ class World:
             if self.kind == 'bdd':
                 for _ in range(1 + e.extra):
                     self.b.decref(e.ref)
+            else:
+                for _ in range(e.extra):
+                    self.A.decref(e.ref)
             e.ref = None
         gc.collect()
         self.check()
